@@ -105,6 +105,8 @@ def run_sessions(ctx, label, sessions, **kw):
         # send_bytes, send_text); the model line is the same
         if si % 2:
             ops = session.alias_ops(ops, f"{label}:{si}")
+        if si % 5 == 4:
+            cfg = dict(cfg or {}, mt=False)         # every fifth session on an object built with enable_multithread=False
         out, ws, sock = session.run_impl(cfg, events, ops, **kw)
         lines.append(session.line(cfg, events, ops))
         impls.append(out)
